@@ -2,9 +2,9 @@ package main
 
 import (
 	"fmt"
+	"go/types"
 	"path"
 	"path/filepath"
-	"go/types"
 	"strings"
 
 	"golang.org/x/tools/go/ssa"
@@ -14,55 +14,55 @@ var intrinsics map[string]primFn
 
 func init() {
 	intrinsics = map[string]primFn{
-		"errors.Is":                iErrorsIs,
-		"errors.As":                iErrorsAs,
-		"fmt.Errorf":               iErrorf,
-		"fmt.Sprintf":              iSprintf,
-		"fmt.Sprint":               iSprintOpaque,
-		"fmt.Sprintln":             iSprintOpaque,
-		"fmt.Printf":               iNoop2,
-		"fmt.Println":              iNoop2,
-		"fmt.Print":                iNoop2,
-		"fmt.Fprintf":              iNoop2,
-		"fmt.Fprintln":             iNoop2,
-		"fmt.Fprint":               iNoop2,
-		"log.Printf":               iNoop,
-		"log.Print":                iNoop,
-		"log.Println":              iNoop,
-		"strings.HasPrefix":        func(in *Interp, fn *ssa.Function, a []Value) Value { return strHasPrefix(a[0].(Term), a[1].(Term)) },
-		"strings.HasSuffix":        func(in *Interp, fn *ssa.Function, a []Value) Value { return strHasSuffix(a[0].(Term), a[1].(Term)) },
-		"strings.Contains":         func(in *Interp, fn *ssa.Function, a []Value) Value { return strContains(a[0].(Term), a[1].(Term)) },
-		"strings.CutPrefix":        iCutPrefix,
-		"strings.TrimPrefix":       iTrimPrefix,
-		"strings.TrimSuffix":       iTrimSuffix,
-		"strings.Compare":          iStrCompare,
-		"cmp.Compare":              iCmpCompare,
-		"strings.Split":            iStrSplit,
-		"strings.Join":             iStrJoin,
-		"strings.Cut":              iStrCut,
-		"(*sync.Mutex).Lock":       iMutexLock,
-		"(*sync.Mutex).Unlock":     iMutexUnlock,
-		"(*sync.RWMutex).Lock":     iMutexLock,
-		"(*sync.RWMutex).Unlock":   iMutexUnlock,
-		"(*sync.RWMutex).RLock":    iMutexLock,
-		"(*sync.RWMutex).RUnlock":  iMutexUnlock,
-		"time.Now":                 iTimeNow,
-		"(time.Time).UTC":          func(in *Interp, fn *ssa.Function, a []Value) Value { t := a[0].(TimeV); t.UTC = true; return t },
-		"(time.Time).Unix":         iTimeUnixOf,
-		"(time.Time).UnixMilli":    iTimeUnixMilliOf,
-		"(time.Time).Sub":          iTimeSub,
-		"(time.Time).IsZero":       func(in *Interp, fn *ssa.Function, a []Value) Value { return tEq(a[0].(TimeV).NS, mkInt(0)) },
-		"(time.Time).Round":        func(in *Interp, fn *ssa.Function, a []Value) Value { return a[0] },
-		"time.Unix":                iTimeUnix,
-		"time.Since":               iTimeSince,
-		"(time.Duration).Round":    func(in *Interp, fn *ssa.Function, a []Value) Value { return a[0] },
-		"math/rand.Uint64":         func(in *Interp, fn *ssa.Function, a []Value) Value { return in.freshBV("rand.Uint64", 64) },
-		"math/rand.Intn":           iRandIntn,
-		"(*expvar.Int).Add":        iNoop,
-		"(*expvar.Int).Set":        iNoop,
-		"(*expvar.Float).Set":      iNoop,
-		"(*expvar.Float).Add":      iNoop,
-		"(*expvar.Map).Set":        iNoop,
+		"errors.Is":                             iErrorsIs,
+		"errors.As":                             iErrorsAs,
+		"fmt.Errorf":                            iErrorf,
+		"fmt.Sprintf":                           iSprintf,
+		"fmt.Sprint":                            iSprintOpaque,
+		"fmt.Sprintln":                          iSprintOpaque,
+		"fmt.Printf":                            iNoop2,
+		"fmt.Println":                           iNoop2,
+		"fmt.Print":                             iNoop2,
+		"fmt.Fprintf":                           iNoop2,
+		"fmt.Fprintln":                          iNoop2,
+		"fmt.Fprint":                            iNoop2,
+		"log.Printf":                            iNoop,
+		"log.Print":                             iNoop,
+		"log.Println":                           iNoop,
+		"strings.HasPrefix":                     func(in *Interp, fn *ssa.Function, a []Value) Value { return strHasPrefix(a[0].(Term), a[1].(Term)) },
+		"strings.HasSuffix":                     func(in *Interp, fn *ssa.Function, a []Value) Value { return strHasSuffix(a[0].(Term), a[1].(Term)) },
+		"strings.Contains":                      func(in *Interp, fn *ssa.Function, a []Value) Value { return strContains(a[0].(Term), a[1].(Term)) },
+		"strings.CutPrefix":                     iCutPrefix,
+		"strings.TrimPrefix":                    iTrimPrefix,
+		"strings.TrimSuffix":                    iTrimSuffix,
+		"strings.Compare":                       iStrCompare,
+		"cmp.Compare":                           iCmpCompare,
+		"strings.Split":                         iStrSplit,
+		"strings.Join":                          iStrJoin,
+		"strings.Cut":                           iStrCut,
+		"(*sync.Mutex).Lock":                    iMutexLock,
+		"(*sync.Mutex).Unlock":                  iMutexUnlock,
+		"(*sync.RWMutex).Lock":                  iMutexLock,
+		"(*sync.RWMutex).Unlock":                iMutexUnlock,
+		"(*sync.RWMutex).RLock":                 iMutexLock,
+		"(*sync.RWMutex).RUnlock":               iMutexUnlock,
+		"time.Now":                              iTimeNow,
+		"(time.Time).UTC":                       func(in *Interp, fn *ssa.Function, a []Value) Value { t := a[0].(TimeV); t.UTC = true; return t },
+		"(time.Time).Unix":                      iTimeUnixOf,
+		"(time.Time).UnixMilli":                 iTimeUnixMilliOf,
+		"(time.Time).Sub":                       iTimeSub,
+		"(time.Time).IsZero":                    func(in *Interp, fn *ssa.Function, a []Value) Value { return tEq(a[0].(TimeV).NS, mkInt(0)) },
+		"(time.Time).Round":                     func(in *Interp, fn *ssa.Function, a []Value) Value { return a[0] },
+		"time.Unix":                             iTimeUnix,
+		"time.Since":                            iTimeSince,
+		"(time.Duration).Round":                 func(in *Interp, fn *ssa.Function, a []Value) Value { return a[0] },
+		"math/rand.Uint64":                      func(in *Interp, fn *ssa.Function, a []Value) Value { return in.freshBV("rand.Uint64", 64) },
+		"math/rand.Intn":                        iRandIntn,
+		"(*expvar.Int).Add":                     iNoop,
+		"(*expvar.Int).Set":                     iNoop,
+		"(*expvar.Float).Set":                   iNoop,
+		"(*expvar.Float).Add":                   iNoop,
+		"(*expvar.Map).Set":                     iNoop,
 		"(*tailscale.com/metrics.LabelMap).Add": iNoop,
 	}
 	intrinsics["path/filepath.Dir"] = func(in *Interp, fn *ssa.Function, a []Value) Value { return mkStr(filepath.Dir(concStr(a[0]))) }
